@@ -107,7 +107,34 @@ def reload_scripts(rng, n):
         after = [svcs[1]]
         cfg = proto.Config(svcs, timeout=rng.choice([None, 3600]))
         kind = ["more-then-removed", "leaver-then-removed", "more-then-removed", "owed-answer", "two-waiters", "leaver-then-removed", "retry-then-removed",
-                "more-then-replaced", "removed-then-leave", "ok-then-slot-reused", "first-service-added", "ok-held-then-service-added"][k_ % 12]
+                "more-then-replaced", "removed-then-leave", "ok-then-slot-reused", "first-service-added", "ok-held-then-service-added", "rule-names-retired-service"][k_ % 13]
+        if kind == "rule-names-retired-service":
+            # a class rule asks for named.svc's OK and places one client; reloads that touch only the service table retire named.svc
+            # and put another service in (possibly in its place in the table); the next client is approved by that other service:
+            # the rule still names named.svc, which is not there and has said nothing about this client
+            lp2 = rng.choice(["login", "login-ipr"])
+            cfg = proto.Config([("named.svc", lp2)], timeout=3600, rules=[{"name": "a1", "xreply_ok": "named.svc", "class": "vip"}, {"name": "z9", "class": "plain"}], use_class=True)
+            other = rng.choice(["other.svc", "a-other.svc", "zz.svc"])
+            def client(cid, acct, svc, tag, text):
+                return [{"t": "announce", "id": cid, "ip": "192.0.2.%d" % cid, "port": 1000 + cid}, {"t": "host", "id": cid, "name": "h%d.example" % cid}, {"t": "ident", "id": cid, "name": "id%d" % cid},
+                        {"t": "password", "id": cid, "text": "+x %s pw" % acct}, {"t": "reply", "svc": svc, "tag": tag, "text": text},
+                        {"t": "nick", "id": cid, "name": "n%d" % cid}, {"t": "userinfo", "id": cid, "user": "u%d" % cid, "real": "R"}, {"t": "hurry", "id": cid}]
+            ev = client(5, "u1", "named.svc", "5_1", "OK u1")
+            if rng.random() < 0.5:
+                ev += client(7, "u7", "named.svc", "7_2", rng.choice(["OK", "NO refused", "OK u7"]))
+                nxt = 3
+            else:
+                nxt = 2
+            ev += [{"t": "reload", "services": []}, {"t": "reload", "services": [[other, rng.choice(["login", "login-ipr"])]]}]
+            if rng.random() < 0.4:
+                ev += [{"t": "reload", "services": [[other, "login"], ["named.svc", "login"]]}]
+                # named.svc is back (a new entry): it is asked, and it refuses to vouch - only the other one says OK
+                ev += client(9, "u2", other, "9_%x" % nxt, "OK u2")[:-1] + [{"t": "unlinked", "svc": "named.svc", "tag": "9_%x" % nxt, "text": "Server not online"}, {"t": "hurry", "id": 9}]
+            else:
+                ev += client(9, "u2", other, "9_%x" % nxt, "OK u2")
+            ev += [{"t": "timeout", "id": 9}, {"t": "stats"}]
+            out.append((cfg, ev))
+            continue
         if kind == "ok-held-then-service-added":
             # two services are asked; one has said OK and the other still owes its answer when a reload ADDS a third service (before,
             # between or behind them in the file); the owed answer then arrives: a class rule asking for the first one's OK still matches
